@@ -1,6 +1,7 @@
 package lib
 
 import (
+	"io"
 	"os"
 
 	"github.com/ipfs/go-cid"
@@ -17,7 +18,12 @@ func CarRoot(file string) (roots []cid.Cid, err error) {
 		}
 	}
 
-	rd, err := carv2.NewBlockReader(inStream)
+	var in io.Reader = inStream
+	if inStream == os.Stdin {
+		// stdin may be a pipe: it is an io.Seeker by type but cannot seek
+		in = struct{ io.Reader }{inStream}
+	}
+	rd, err := carv2.NewBlockReader(in)
 	if err != nil {
 		return nil, err
 	}
